@@ -26,10 +26,10 @@ Ob(k, i, r, c) == [k |-> k, i |-> i, r |-> r, c |-> c]
 MInit(c) ==
     [ hook |-> c.hook, syncClose |-> c.syncClose, pol |-> c.pol, cmode |-> c.cmode, hmode |-> c.hmode,
       st |-> "Init", running |-> FALSE, fa |-> 0,
-      aw |-> <<>>,            \* awaitingConnected: [id, rem (0 = None), then]
+      aw |-> <<>>,            \* awaitingConnected: [id, rem (-1 = None), then]
       sw |-> <<>>,            \* stopWaiters: [id, then]
       data |-> 0,             \* state-specific data: attempt id (Connecting) / connection id (Connected)
-      chain |-> <<>>,         \* per attempt (index = attempt id): [ph |-> "ep" | "hook" | "done", c |-> connection]
+      chain |-> <<>>,         \* per attempt (index = attempt id): [ph |-> "ep" | "hook" | "done", c |-> connection, acc |-> handed to the machine (`accepted`)]
       att |-> 0,              \* attempt pending at the endpoint (environment)
       conns |-> {},           \* open connections (environment)
       hooks |-> {},           \* connections whose hook Deferred is pending (environment)
@@ -44,7 +44,7 @@ Max(a, b) == IF a > b THEN a ELSE b
 Min(a, b) == IF a < b THEN a ELSE b
 Pol(M, n) == M.pol[Max(1, Min(n, Len(M.pol)))]
 AddObs(M, k, i) == [M EXCEPT !.obs = @ \cup {Ob(k, i, "-", 0)}]
-In(k) == [k |-> k, c |-> 0, n |-> 0, then |-> "none", lim |-> 0]          \* a machine input (n: id of the Deferred it returns)
+In(k) == [k |-> k, c |-> 0, n |-> 0, then |-> "none", lim |-> None]          \* a machine input (n: id of the Deferred it returns)
 
 RECURSIVE Send(_, _), Drain(_), Transition(_, _), FireWaiters(_, _, _, _), FireStops(_, _), NestedCall(_, _, _, _)
 RECURSIVE ChainFail(_, _), Made(_, _, _), Establish(_, _), AttemptConnection(_), CancelAttempt(_, _), DropConn(_, _)
@@ -109,9 +109,9 @@ WaitForRetry(M) ==                                                              
     IN AddObs([M EXCEPT !.fa = n, !.timerAt = M.now + Pol(M, n), !.data = 0], "policy", n)
 
 FailedWhenConnecting(M) ==
-    LET ready == SelectSeq(M.aw, LAMBDA w : w.rem # 0 /\ w.rem <= 1)
-        keep  == SelectSeq(M.aw, LAMBDA w : ~(w.rem # 0 /\ w.rem <= 1))
-        dec   == [i \in 1..Len(keep) |-> IF keep[i].rem = 0 THEN keep[i] ELSE [keep[i] EXCEPT !.rem = @ - 1]]
+    LET ready == SelectSeq(M.aw, LAMBDA w : w.rem # None /\ w.rem <= 1)          \* `remaining is None` / `remaining <= 1`
+        keep  == SelectSeq(M.aw, LAMBDA w : ~(w.rem # None /\ w.rem <= 1))
+        dec   == [i \in 1..Len(keep) |-> IF keep[i].rem = None THEN keep[i] ELSE [keep[i] EXCEPT !.rem = @ - 1]]
     IN FireWaiters([M EXCEPT !.aw = dec], ready, "ERR", 0)
 
 (* ---- the Deferred chain of attemptConnection ---- *)
@@ -119,12 +119,12 @@ Swallow(M) == [M EXCEPT !.exc = "none", !.obs = IF M.exc = "none" THEN @ ELSE @ 
 ChainFail(M, a) ==          \* the chain of attempt a delivers a failure: errback c._connectionFailed
     Swallow(Send([M EXCEPT !.chain[a].ph = "done"], In("_connectionFailed")))
 Made(M, a, c) ==            \* ... delivers the prepared protocol: callback c._connectionMade, then the errback if that raised
-    LET M1 == Send([M EXCEPT !.chain[a].ph = "done"], [In("_connectionMade") EXCEPT !.c = c])
+    LET M1 == Send([M EXCEPT !.chain[a].ph = "done", !.chain[a].acc = TRUE], [In("_connectionMade") EXCEPT !.c = c])   \* made(): accepted.append(True)
     IN IF M1.exc = "none" THEN M1
        ELSE Swallow(Send([M1 EXCEPT !.exc = "none"], In("_connectionFailed")))
 Establish(M, a) ==          \* the endpoint's Deferred fires with a protocol
     LET c  == M.nConn + 1
-        M1 == [M EXCEPT !.nConn = c, !.conns = @ \cup {c}, !.att = IF @ = a THEN 0 ELSE @, !.chain[a] = [ph |-> "hook", c |-> c]]
+        M1 == [M EXCEPT !.nConn = c, !.conns = @ \cup {c}, !.att = IF @ = a THEN 0 ELSE @, !.chain[a] = [ph |-> "hook", c |-> c, acc |-> FALSE]]
     IN IF ~M.hook THEN Made(M1, a, c)
        ELSE LET M2 == AddObs(M1, "prep", c)
             IN CASE M.hmode = "ok"   -> Made(M2, a, c)
@@ -132,7 +132,7 @@ Establish(M, a) ==          \* the endpoint's Deferred fires with a protocol
                  [] OTHER            -> [M2 EXCEPT !.hooks = @ \cup {c}]
 AttemptConnection(M) ==     \* state Connecting's data factory
     LET a  == Len(M.chain) + 1
-        M1 == AddObs([M EXCEPT !.chain = Append(@, [ph |-> "ep", c |-> 0]), !.data = a, !.att = a], "connect", a)
+        M1 == AddObs([M EXCEPT !.chain = Append(@, [ph |-> "ep", c |-> 0, acc |-> FALSE]), !.data = a, !.att = a], "connect", a)
     IN CASE M.cmode = "ok"   -> Establish(M1, a)
          [] M.cmode = "fail" -> ChainFail([M1 EXCEPT !.att = 0], a)
          [] OTHER            -> M1
@@ -140,8 +140,11 @@ CancelAttempt(M, a) ==      \* attempt.cancel()
     CASE M.chain[a].ph = "ep"   -> ChainFail(AddObs([M EXCEPT !.att = 0], "cancel", a), a)
       [] M.chain[a].ph = "hook" /\ M.chain[a].c \in M.hooks -> ChainFail([M EXCEPT !.hooks = @ \ {M.chain[a].c}], a)
       [] OTHER                  -> M
-DropConn(M, c) ==           \* the transport reports the loss: proxy.connectionLost -> c._clientDisconnected
-    Send([M EXCEPT !.conns = @ \ {c}], In("_clientDisconnected"))
+DropConn(M, c) ==           \* the transport reports the loss: proxy.connectionLost -> disconnected() of the attempt that made c
+    LET a  == CHOOSE x \in 1..Len(M.chain) : M.chain[x].c = c
+        M1 == [M EXCEPT !.conns = @ \ {c}]
+    IN IF M.chain[a].acc THEN Send(M1, In("_clientDisconnected"))      \* the accepted connection: an input of the machine
+       ELSE CancelAttempt(M1, a)                                        \* lost before it was accepted: connectingProxy.cancel()
 LoseConnection(M, c) ==
     LET M1 == AddObs(M, "lose", c)
     IN IF M.syncClose /\ c \in M.conns THEN DropConn(M1, c) ELSE M1
@@ -161,7 +164,7 @@ Transition(M, inp) ==
                 [] st = "Disconnecting"       -> To("Restarting")
                 [] OTHER                      -> M
          [] inp.k = "stop" ->
-              CASE st \in {"Init", "Stopped"} -> FiredNow(To("Stopped"), "s", inp.n, inp.then, "OK", 0)
+              CASE st \in {"Init", "Stopped"} -> FiredNow(Unawait(To("Stopped"), "ERR", 0), "s", inp.n, inp.then, "OK", 0)   \* immediateStop
                 [] st = "Connecting"    -> CancelAttempt(WaitStop(To("Disconnecting"), inp.n, inp.then), d)
                 [] st = "Waiting"       ->
                       LET M1 == WaitStop(To("Stopped"), inp.n, inp.then)
